@@ -220,6 +220,36 @@ Definition LBRACE3 : string := "{{{".
 Definition RBRACE3 : string := "}}}".
 Definition DOTS3 : string := "...".
 
+(** Children of an n-ary node: [f k x] prints the k-th child, [sep k] what precedes it (k >= 1). *)
+Section Lists.
+  Variable f : nat -> expr -> string.
+  Variable sep : nat -> string.
+  Fixpoint txt_list (k : nat) (l : list expr) : string :=
+    match l with
+    | [] => EmptyString
+    | x :: r => append (match k with O => EmptyString | _ => sep k end) (append (f k x) (txt_list (S k) r))
+    end.
+
+  Variable g : nat -> expr -> pos -> expr * pos.
+  Variable sepadv : nat -> pos -> pos.
+  Fixpoint loc_list (k : nat) (l : list expr) (q : pos) : list expr * pos :=
+    match l with
+    | [] => ([], q)
+    | x :: r =>
+        let q0 := match k with O => q | _ => sepadv k q end in
+        let '(x', q1) := g k x q0 in
+        let '(rs, q2) := loc_list (S k) r q1 in
+        (x' :: rs, q2)
+    end.
+End Lists.
+
+Definition no_sep (k : nat) : string := EmptyString.
+Definition seq_sep (L : nodelay) (k : nat) : string := gap_text (gap1 (fst (nl_sep L k))).
+Definition alt_sep (L : nodelay) (k : nat) : string :=
+  append (gap_text (post_gap (fst (nl_sep L k)))) (String BAR (gap_text (snd (nl_sep L k)))).
+Definition fb_sep (L : nodelay) (k : nat) : string :=
+  append (gap_text (post_gap (fst (nl_sep L k)))) (String BAR (String BAR (gap_text (snd (nl_sep L k))))).
+
 Fixpoint txt (lay : layout) (ctx : nat) (e : expr) {struct e} : string :=
   let L := lay [] in
   let body :=
@@ -244,46 +274,12 @@ Fixpoint txt (lay : layout) (ctx : nat) (e : expr) {struct e} : string :=
                (append (gap_text (post_gap (nl_gap L 0))) (descr_text d))
     | Subword r _ _ =>
         match r with
-        | Sequence fs _ =>
-            (fix go (k : nat) (l : list expr) : string :=
-               match l with
-               | [] => EmptyString
-               | f :: r' => append (txt (sub (sub lay 0) k) 5 f) (go (S k) r')
-               end) 0%nat fs
+        | Sequence fs _ => txt_list (fun k f => txt (sub (sub lay 0) k) 5 f) no_sep 0 fs
         | _ => txt (sub lay 0) 5 r
         end
-    | Sequence cs _ =>
-        (fix go (k : nat) (l : list expr) : string :=
-           match l with
-           | [] => EmptyString
-           | x :: r' =>
-               append (match k with O => EmptyString | _ => gap_text (gap1 (fst (nl_sep L k))) end)
-                      (append (txt (sub lay k) 3 x) (go (S k) r'))
-           end) 0%nat cs
-    | Alternative cs _ =>
-        (fix go (k : nat) (l : list expr) : string :=
-           match l with
-           | [] => EmptyString
-           | x :: r' =>
-               append (match k with
-                       | O => EmptyString
-                       | _ => append (gap_text (post_gap (fst (nl_sep L k))))
-                                     (String BAR (gap_text (snd (nl_sep L k))))
-                       end)
-                      (append (txt (sub lay k) 2 x) (go (S k) r'))
-           end) 0%nat cs
-    | Fallback cs _ =>
-        (fix go (k : nat) (l : list expr) : string :=
-           match l with
-           | [] => EmptyString
-           | x :: r' =>
-               append (match k with
-                       | O => EmptyString
-                       | _ => append (gap_text (post_gap (fst (nl_sep L k))))
-                                     (String BAR (String BAR (gap_text (snd (nl_sep L k)))))
-                       end)
-                      (append (txt (sub lay k) 1 x) (go (S k) r'))
-           end) 0%nat cs
+    | Sequence cs _ => txt_list (fun k x => txt (sub lay k) 3 x) (seq_sep L) 0 cs
+    | Alternative cs _ => txt_list (fun k x => txt (sub lay k) 2 x) (alt_sep L) 0 cs
+    | Fallback cs _ => txt_list (fun k x => txt (sub lay k) 1 x) (fb_sep L) 0 cs
     end in
   let body := if Nat.ltb (prec e) ctx then paren_text (nl_gap L 2) (nl_gap L 3) body else body in
   wrap_text L (wraps L ctx) body.
@@ -350,14 +346,7 @@ Fixpoint loc (c : cfg) (lay : layout) (ctx : nat) (e : expr) (p : pos) {struct e
         match r with
         | Sequence fs _ =>
             let '(fs', p1) :=
-              (fix go (k : nat) (lst : list expr) (q : pos) : list expr * pos :=
-                 match lst with
-                 | [] => ([], q)
-                 | f :: r' =>
-                     let '(f', q1) := loc c (sub (sub lay 0) k) 5 f q in
-                     let '(rs, q2) := go (S k) r' q1 in
-                     (f' :: rs, q2)
-                 end) 0%nat fs pb in
+              loc_list (fun k f q => loc c (sub (sub lay 0) k) 5 f q) (fun _ q => q) 0 fs pb in
             (Subword (Sequence fs' (pspan pb p1)) l (pspan pb p1), p1)
         | _ =>
             let '(r', p1) := loc c (sub lay 0) 5 r pb in
@@ -365,51 +354,15 @@ Fixpoint loc (c : cfg) (lay : layout) (ctx : nat) (e : expr) (p : pos) {struct e
         end
     | Sequence cs _ =>
         let '(cs', p1) :=
-          (fix go (k : nat) (lst : list expr) (q : pos) : list expr * pos :=
-             match lst with
-             | [] => ([], q)
-             | x :: r' =>
-                 let q0 := match k with
-                           | O => q
-                           | _ => adv_str (gap_text (gap1 (fst (nl_sep L k)))) q
-                           end in
-                 let '(x', q1) := loc c (sub lay k) 3 x q0 in
-                 let '(rs, q2) := go (S k) r' q1 in
-                 (x' :: rs, q2)
-             end) 0%nat cs pb in
+          loc_list (fun k x q => loc c (sub lay k) 3 x q) (fun k q => adv_str (seq_sep L k) q) 0 cs pb in
         (Sequence cs' (pspan pb p1), p1)
     | Alternative cs _ =>
         let '(cs', p1) :=
-          (fix go (k : nat) (lst : list expr) (q : pos) : list expr * pos :=
-             match lst with
-             | [] => ([], q)
-             | x :: r' =>
-                 let q0 := match k with
-                           | O => q
-                           | _ => adv_str (gap_text (snd (nl_sep L k)))
-                                    (adv_char BAR (adv_str (gap_text (post_gap (fst (nl_sep L k)))) q))
-                           end in
-                 let '(x', q1) := loc c (sub lay k) 2 x q0 in
-                 let '(rs, q2) := go (S k) r' q1 in
-                 (x' :: rs, q2)
-             end) 0%nat cs pb in
+          loc_list (fun k x q => loc c (sub lay k) 2 x q) (fun k q => adv_str (alt_sep L k) q) 0 cs pb in
         (Alternative cs' (pspan pb p1), p1)
     | Fallback cs _ =>
         let '(cs', p1) :=
-          (fix go (k : nat) (lst : list expr) (q : pos) : list expr * pos :=
-             match lst with
-             | [] => ([], q)
-             | x :: r' =>
-                 let q0 := match k with
-                           | O => q
-                           | _ => adv_str (gap_text (snd (nl_sep L k)))
-                                    (adv_char BAR (adv_char BAR
-                                       (adv_str (gap_text (post_gap (fst (nl_sep L k)))) q)))
-                           end in
-                 let '(x', q1) := loc c (sub lay k) 1 x q0 in
-                 let '(rs, q2) := go (S k) r' q1 in
-                 (x' :: rs, q2)
-             end) 0%nat cs pb in
+          loc_list (fun k x q => loc c (sub lay k) 1 x q) (fun k q => adv_str (fb_sep L k) q) 0 cs pb in
         (Fallback cs' (pspan pb p1), p1)
     end in
   let pc := if par then paren_close (nl_gap L 3) pe else pe in
